@@ -4,6 +4,7 @@ package c12
 
 import (
 	"math"
+	"os"
 
 	"github.com/trajectoryjp/spatial_id_go/v4/common/consts"
 	"github.com/trajectoryjp/spatial_id_go/v4/transform"
@@ -47,6 +48,294 @@ func fnValidate() *run.Fn {
 		err, ok := transform.VerifValidateIndexExists(w.AsInt(a[0]), w.AsInt(a[1]), w.AsBool(a[2]))
 		return w.WithErr(w.B(ok), err)
 	}}
+}
+
+// ---- call histories (entry "CallSequence") ----
+// A step is [name, arg...] with name one of the four plain entries. The invoker first issues one fixed, unrelated call of each function
+// (so a replay in a fresh process and every shrinker candidate start from the same library state), then the steps back to back, and
+// returns the list of their observations; a panicking step is recorded as Panic in its place, a malformed step (shrinker) as Nil.
+func doStep(st w.Val) (res w.Val) {
+	defer func() {
+		if e := recover(); e != nil {
+			res = w.Panic{Msg: "step panicked"}
+		}
+	}()
+	l, ok := st.(w.List)
+	if !ok || len(l) < 1 {
+		return w.Nil{}
+	}
+	name, ok := l[0].(w.Str)
+	if !ok {
+		return w.Nil{}
+	}
+	a := l[1:]
+	if string(name) == "validateIndexExists" {
+		if len(a) != 3 {
+			return w.Nil{}
+		}
+		i, ok1 := a[0].(w.Int)
+		z, ok2 := a[1].(w.Int)
+		b, ok3 := a[2].(w.Bool)
+		if !ok1 || !ok2 || !ok3 || !i.V.IsInt64() || !z.V.IsInt64() {
+			return w.Nil{}
+		}
+		err, okk := transform.VerifValidateIndexExists(i.V.Int64(), z.V.Int64(), bool(b))
+		return w.WithErr(w.B(okk), err)
+	}
+	if len(a) != 5 {
+		return w.Nil{}
+	}
+	x := make([]int64, 5)
+	for k, v := range a {
+		n, ok := v.(w.Int)
+		if !ok || !n.V.IsInt64() {
+			return w.Nil{}
+		}
+		x[k] = n.V.Int64()
+	}
+	switch string(name) {
+	case "ConvertZToMinMaxAltitudekey":
+		return resVal(z2k(x))
+	case "ConvertAltitudekeyToMinMaxZ":
+		return resVal(k2z(x))
+	case "convertZToMinAltitudekey":
+		o, err := transform.VerifConvertZToMinAltitudekey(x[0], x[1], x[2], x[3], x[4])
+		return w.WithErr(w.I(o), err)
+	}
+	return w.Nil{}
+}
+
+func fnSequence() *run.Fn {
+	return &run.Fn{Name: "CallSequence", Invoke: func(a []w.Val) w.Val {
+		// priming: the same unrelated calls before every sequence
+		_, _, _ = transform.ConvertZToMinMaxAltitudekey(3, 10, 12, 25, 7)
+		_, _, _ = transform.ConvertAltitudekeyToMinMaxZ(5, 9, 11, 25, 3)
+		_, _ = transform.VerifConvertZToMinAltitudekey(3, 10, 12, 25, 7)
+		_, _ = transform.VerifValidateIndexExists(1, 1, true)
+		steps, ok := a[0].(w.List)
+		if !ok {
+			return w.Nil{}
+		}
+		out := make(w.List, 0, len(steps))
+		for _, st := range steps {
+			out = append(out, doStep(st))
+		}
+		return out
+	}}
+}
+
+type step struct {
+	fn  string
+	a   []int64
+	neg bool // validateIndexExists only (a = [index, zoom])
+}
+
+func (s step) val() w.Val {
+	l := w.List{w.S(s.fn)}
+	for _, x := range s.a {
+		l = append(l, w.I(x))
+	}
+	if s.fn == "validateIndexExists" {
+		l = append(l, w.B(s.neg))
+	}
+	return l
+}
+
+func clampZoom(z int64) int64 {
+	if z < 0 {
+		return 0
+	}
+	if z > 35 {
+		return 35
+	}
+	return z
+}
+
+// changeArg returns a copy of the five arguments with argument j changed so that the answer very likely changes
+func changeArg(g *Gen, a []int64, j int) []int64 {
+	b := append([]int64{}, a...)
+	switch j {
+	case 0:
+		b[0] += g.Pick(1, -1, 2, -2, 3)
+	case 1: // source zoom: a neighbour, or across the 1 m zoom (changes the fraction)
+		z := b[1]
+		switch g.Intn(3) {
+		case 0:
+			z += g.Pick(1, -1)
+		case 1:
+			if z <= 25 {
+				z = 26 + g.Int63n(6)
+			} else {
+				z = 25 - g.Int63n(6)
+			}
+		default:
+			z += g.Pick(2, -2, 3)
+		}
+		z = clampZoom(z)
+		if z == b[1] {
+			if z > 0 {
+				z--
+			} else {
+				z++
+			}
+		}
+		b[1] = z
+	case 2, 3:
+		z := clampZoom(b[j] + g.Pick(1, -1, 2, -2))
+		if z == b[j] {
+			if z > 0 {
+				z--
+			} else {
+				z++
+			}
+		}
+		b[j] = z
+	case 4:
+		switch g.Intn(5) {
+		case 0:
+			b[4]++
+		case 1:
+			b[4]--
+		case 2:
+			b[4] += pow2(g.Int63n(20))
+		case 3:
+			if b[4] != 0 {
+				b[4] = -b[4]
+			} else {
+				b[4] = 5
+			}
+		default:
+			if b[4] != 0 {
+				b[4] = 0
+			} else {
+				b[4] = pow2(g.Int63n(12)) + 1
+			}
+		}
+	}
+	return b
+}
+
+// invalid variants of a call that share its key-like arguments
+func badVariant(g *Gen, fwd bool, a []int64) []int64 {
+	b := append([]int64{}, a...)
+	switch g.Intn(5) {
+	case 0: // index one past either end of its zoom
+		if fwd {
+			b[0] = g.Pick(pow2(b[1]), -pow2(b[1])-1)
+		} else {
+			b[0] = g.Pick(pow2(b[1]), -1)
+		}
+	case 1: // offset that moves the cell out of the target range
+		if fwd {
+			b[4] += g.Pick(pow2(b[3])+pow2(25), -pow2(b[3])-pow2(25))
+		} else {
+			b[4] += g.Pick(pow2(27), -pow2(27))
+		}
+	case 2:
+		b[1] = g.Pick(36, -1, 40)
+	case 3:
+		b[2] = g.Pick(36, -1, 64)
+	default: // target zoom too small for the result / exponent far away
+		b[3] = g.Pick(0, 35)
+		b[4] += g.Pick(pow2(26), -pow2(26))
+	}
+	return b
+}
+
+func genSequence(r *run.Runner, g *Gen) {
+	fwd := g.Chance(0.6)
+	fn := "ConvertAltitudekeyToMinMaxZ"
+	var a []int64
+	if fwd {
+		fn = "ConvertZToMinMaxAltitudekey"
+		switch g.Intn(3) {
+		case 0:
+			a, _ = okFirst(g, genCoarseOdd, z2k)
+		case 1:
+			a, _ = okFirst(g, genStraddleFwd, z2k)
+		default:
+			a, _ = okFirst(g, genForward, z2k)
+		}
+		if g.Chance(0.15) {
+			fn = "convertZToMinAltitudekey"
+		}
+	} else {
+		if g.Chance(0.3) {
+			a, _ = okFirst(g, genStraddleBwd, k2z)
+		} else {
+			a, _ = okFirst(g, genBackward, k2z)
+		}
+	}
+	s0 := step{fn: fn, a: a}
+	mk := func(x []int64) step { return step{fn: fn, a: x} }
+	var seq []step
+	pat := ""
+	switch g.Intn(8) {
+	case 0:
+		pat = "repeat"
+		seq = []step{s0, s0}
+		if g.Chance(0.5) {
+			seq = append(seq, s0)
+		}
+	case 1, 2: // every memo keyed on a subset of the arguments misses at least one position j: call, change only j, call again
+		pat = "subset-sweep"
+		seq = []step{s0}
+		for _, j := range g.R.Perm(5)[:2+g.Intn(4)] {
+			seq = append(seq, mk(changeArg(g, a, j)), s0)
+		}
+	case 3:
+		pat = "same-zooms-other-index-offset"
+		i1 := changeArg(g, a, 0)
+		o1 := changeArg(g, a, 4)
+		io := changeArg(g, i1, 4)
+		seq = []step{s0, mk(i1), mk(o1), mk(io), s0}
+	case 4:
+		pat = "same-index-offset-other-zooms"
+		z1 := changeArg(g, a, 1)
+		z2 := changeArg(g, a, 2)
+		z3 := changeArg(g, a, 3)
+		seq = []step{s0, mk(z1), mk(z2), mk(z3), mk(changeArg(g, z1, 3)), s0}
+	case 5: // invalid-then-valid, valid-then-invalid, repeated invalid
+		pat = "invalid-valid"
+		b1 := mk(badVariant(g, fwd, a))
+		b2 := mk(badVariant(g, fwd, a))
+		switch g.Intn(6) {
+		case 0:
+			seq = []step{b1, s0}
+		case 1:
+			seq = []step{s0, b1, s0}
+		case 2:
+			seq = []step{b1, b1, s0}
+		case 3:
+			seq = []step{b1, s0, b2, s0}
+		case 4:
+			seq = []step{s0, b1, b1}
+		default:
+			seq = []step{b1, b2, b1, s0, b2}
+		}
+	case 6: // the same numbers through every function, the helper with both flags
+		pat = "cross-function"
+		v := func(i, z int64, neg bool) step { return step{fn: "validateIndexExists", a: []int64{i, z}, neg: neg} }
+		seq = []step{s0, {fn: "convertZToMinAltitudekey", a: a}, v(a[0], a[1], true), v(a[0], a[1], false), s0,
+			v(a[0], a[2], false), v(a[0], a[2], true), {fn: "ConvertAltitudekeyToMinMaxZ", a: a}, {fn: "ConvertZToMinMaxAltitudekey", a: a}, s0,
+			v(-a[0]-1, a[1], true), v(-a[0]-1, a[1], false), v(-a[0]-1, a[1], true)}
+	default: // the offset is scaled by the fraction of the source zoom: same offset under other fractions, zero offset after a non-zero one
+		pat = "offset-fraction"
+		zlo := changeArg(g, a, 1)
+		zlo[1] = 20 + g.Int63n(6)
+		zhi := append([]int64{}, a...)
+		zhi[1] = 26 + g.Int63n(10)
+		zhi0 := append([]int64{}, zhi...)
+		zhi0[4] = 0
+		zlo0 := append([]int64{}, zlo...)
+		zlo0[4] = 0
+		seq = []step{s0, mk(zlo), mk(zhi), mk(zhi0), mk(zlo0), mk(zhi), s0}
+	}
+	steps := make(w.List, len(seq))
+	for i, st := range seq {
+		steps[i] = st.val()
+	}
+	r.Run(run.Case{Prop: "C12", Fn: "CallSequence", Args: []w.Val{steps}, Tags: []string{"sequence", "sequence:" + pat, Tag("steps=%d", len(seq))}})
 }
 
 // probes returns the indices on which the opposite direction is called (mirrors DC12.probes): the whole returned range and its two
@@ -473,7 +762,7 @@ func init() {
 	Scale["C12"] = 50000
 	Registry["C12"] = func(r *run.Runner, g *Gen, n int) {
 		r.Register(fnZ2K(), fnK2Z(), fnMin(), fnValidate(),
-			fnRoundTrip("RoundTripZ", z2k, k2z), fnRoundTrip("RoundTripK", k2z, z2k))
+			fnRoundTrip("RoundTripZ", z2k, k2z), fnRoundTrip("RoundTripK", k2z, z2k), fnSequence())
 		if n == 0 {
 			return
 		}
@@ -489,7 +778,18 @@ func init() {
 		if g.Tier == "thorough" {
 			exhaustive(r)
 		}
+		// diagnostic switch (mutation experiments only): VERIF_C12_NOSEQ=1 replaces the CallSequence stream by the older scheme of
+		// related calls emitted back to back as separate cases
+		seqP, consecP := 0.12, 0.04
+		if os.Getenv("VERIF_C12_NOSEQ") != "" {
+			seqP, consecP = 0, 0.1
+		}
 		for i := 0; i < n; i++ {
+			// ~12 %: a history of related calls carried by one case (entry CallSequence)
+			if seqP > 0 && g.Chance(seqP) {
+				genSequence(r, g)
+				continue
+			}
 			var a []int64
 			var tags []string
 			fn := ""
@@ -567,8 +867,8 @@ func init() {
 				tags = []string{tg, fn}
 			}
 			emit(r, fn, a, tags)
-			// ~10 %: a related call issued back to back (same call twice, or one argument changed) — exposes state kept between calls
-			if g.Chance(0.1) {
+			// ~4 %: a related call issued back to back as separate cases (the self-contained histories are the CallSequence cases)
+			if g.Chance(consecP) {
 				b := related(g, a)
 				emit(r, fn, b, []string{"consecutive"})
 				if g.Chance(0.5) {
